@@ -57,6 +57,8 @@ def case_strategy(draw, max_ops=40):
     top["residues"] = [["R%d" % k, r[1], r[2]] for k, r in enumerate(top["residues"])]
     rng = np.random.default_rng(draw(gen.SEEDS))
     pos = gen.walk_geometry(n, top["edges"], rng)
+    if draw(st.integers(0, 3)) == 0:
+        pos = pos + rng.uniform(-900, 9900, 3)            # anywhere a coordinate file can place it
     vel = rng.uniform(-1, 1, (n, 3)) if draw(st.booleans()) else None
     spec = gen.with_coords(top, np.round(pos, 3), None if vel is None else np.round(vel, 4))
     return {"spec": spec, "source": draw(st.sampled_from(["spec", "system", "alignment"])),
@@ -312,11 +314,11 @@ def check(case):
                 P = np.array([model.cells[c]["pos"] for c in e.cells])
                 com = P.mean(axis=0)
                 if kind == "move":
-                    v = rng.uniform(-3, 3, 3)
+                    v = rng.uniform(-3, 3, 3) * (10.0 ** rng.uniform(-4, -2) if flag else 1.0)      # also small steps
                     lib("move", o.move, v.copy())
                     newP = P + v
                 elif kind == "move_to":
-                    p = rng.uniform(-3, 3, 3)
+                    p = com + rng.uniform(-1, 1, 3) * 10.0 ** rng.uniform(-4, -2) if flag else rng.uniform(-3, 3, 3)
                     lib("move_to", o.move_to, p.copy())
                     newP = P + (p - com)
                 else:
